@@ -255,9 +255,28 @@ def configs(tier):
     return cs
 
 
+# end-to-end cross-check of the port-level responder (assume-guarantee, DESIGN 3.3): the converter as LiteDRAMCrossbar.get_port(data_width=...)
+# builds it, over the REAL crossbar + controller + DRAM reference (checks/core.py), watched-byte scoreboard at the port's width
+CORE_SDR = dict(nphases=1, memtype="SDR", databits=16, colbits=8, refresh=False, queue_check=False)
+def core_configs(tier):
+    cs = []
+    def add(name, **kw): cs.append((name, dict(CORE_SDR, **kw)))
+    add("core-up-16to8-K3-w0.0", port_width=8, K=3, watch=(0, 0), rows=(0,), wes=[1])
+    add("core-up-16to8-K3-w1.1", port_width=8, K=3, watch=(1, 1), banks=(0,), wes=[1])
+    add("core-down-16to32-K2-w0.1", port_width=32, K=2, watch=(0, 1), cols=(0, 1), rows=(0,), wes=[15, 2])
+    if tier == "thorough":
+        add("core-up-16to8-K4-noflushlast-w0.1", port_width=8, K=4, watch=(0, 1), rows=(0,), wes=[1], last_always=False)
+        add("core-up-16to8-K4-w2.0", port_width=8, K=4, watch=(2, 0), wes=[1])
+        add("core-down-16to32-K3-w1.0", port_width=32, K=3, watch=(1, 0), cols=(0, 1), wes=[15, 1])
+    return cs
+
+
 def run(tier, seed, only=None):
     t0 = time.time()
     jobs = []
+    for name, kw in core_configs(tier):
+        if only and only not in name: continue
+        jobs.append((runner.mc_run, (PROP, "checks.core", "build", kw), dict(name=name, tier=tier, seed=seed, max_states=3_000_000)))
     for name, kw, ms in configs(tier):
         if only and only not in name: continue
         jobs.append((runner.mc_run, (PROP, "checks.c07", "build", kw), dict(name=name, tier=tier, seed=seed, max_states=ms, liveness=LIVE, post="quiescence_check")))
